@@ -15,6 +15,9 @@ class ToolError(Exception):
     pass
 
 
+HOOKS_BUILD_OK = True
+
+
 def log(*a):
     print(*a, file=sys.stderr, flush=True)
 
@@ -36,7 +39,16 @@ def build_harness(profiles=("dev", "release")):
             t0 = time.time()
             r = subprocess.run(cmd, cwd=HARNESS, env=env, stdout=subprocess.PIPE, stderr=subprocess.STDOUT, text=True)
             if r.returncode != 0:
-                raise ToolError("cargo build (%s) failed:\n%s" % (p, r.stdout[-4000:]))
+                # The harness builds /repo with --cfg toodee_verif (hooks on).  If the tree only fails to build WITH the
+                # hooks (an edit that touched a name a hook line mentions), fall back to a build without them: no verdict
+                # depends on the hooks except the repository-tests trace, which is then skipped.
+                env2 = dict(env, RUSTFLAGS="")
+                r2 = subprocess.run(cmd, cwd=HARNESS, env=env2, stdout=subprocess.PIPE, stderr=subprocess.STDOUT, text=True)
+                if r2.returncode != 0:
+                    raise ToolError("cargo build (%s) failed:\n%s" % (p, r.stdout[-4000:]))
+                log("[build] %s profile built WITHOUT the verification cfg (the hooked build failed)" % p)
+                global HOOKS_BUILD_OK
+                HOOKS_BUILD_OK = False
             log("[build] %s profile ok in %.1fs" % (p, time.time() - t0))
     finally:
         fcntl.flock(lock, fcntl.LOCK_UN)
